@@ -27,7 +27,8 @@ import (
 // Transform.Read / RawRecord calls.  Trace_Ingester.tla validates the sequence against Ingester.tla.
 
 type ingRecorder struct {
-	events []interface{}
+	readers []fileformat.FormatReader // the real readers created so far (C12: asked again after the transform ended)
+	events  []interface{}
 	tr     int
 	ids    map[int64]int // node ID -> dense number inside the trace
 }
@@ -62,6 +63,7 @@ func (f *ingRecFormat) CreateFormatReader(name string, input io.Reader, runtime 
 	if err != nil {
 		return nil, err
 	}
+	f.rec.readers = append(f.rec.readers, rd)
 	return &recReader{inner: rd, rec: f.rec}, nil
 }
 
